@@ -27,7 +27,9 @@ for pid in ids:
         },
         "level_note": p.get("level_note", "Trusted: Lean kernel (axioms propext, Classical.choice, Quot.sound only), the hand-written "
                             "model (validated by correspondence), the harness. " + " ".join(p.get("assumptions", []))),
-        "technique": p.get("technique", "Lean 4 machine-checked proof over a hand-written model + differential correspondence check against the real code"),
+        "technique": p.get("technique", "Lean 4 machine-checked proof over a hand-written model + differential correspondence check against the real code"
+                           + ("; the leaf functions of the model are additionally regenerated from /repo's source by a Go→Lean translator on every "
+                              "run and proved equal to the model" if p.get("generated_layer") else "")),
     })
 na = [{"property_id": i, "reason": props.NOT_YET.get(i, "check not built yet in this round; no claim is made")}
       for i in ids if i not in [c["property_id"] for c in checks]]
@@ -43,14 +45,14 @@ man = {
     },
     "engines": [{
         "name": "lean4-proof+correspondence",
-        "path": "/verif/lean (models, specifications, theorems, driver), /verif/harness (Go side), /verif/checklib (driver of the checks)",
+        "path": "/verif/lean (models, specifications, theorems, driver), /verif/translate (Go→Lean translator for the leaf functions), /verif/harness (Go side), /verif/checklib (driver of the checks)",
         "serves_properties": [c["property_id"] for c in checks],
         "kind_free_text": "Lean 4 theorems over hand-written executable models; model tied to the code by a differential line-protocol "
                           "correspondence check (Go harness vs compiled Lean driver) and go/ast-extracted source facts",
     }],
     "checks": checks,
     "not_applicable": na,
-    "notes": "Every check runs: (A) lake build of its theorems + #print axioms audit, (B) source facts, (C) corpus + generated cases real "
+    "notes": "Every check runs: (A') where the property rests on translated leaf functions: regenerate GoSSE/Gen from /repo's source and re-check the equivalence theorems, (A) lake build of its theorems + #print axioms audit, (B) source facts, (C) corpus + generated cases real "
              "code vs Lean model, (D) Lean specification vs real code. Fixed defects are recorded in known_findings.json.",
 }
 json.dump(man, open(os.path.join(VERIF, "MANIFEST.json"), "w"), indent=1)
